@@ -250,7 +250,8 @@ class Profile:
             world_canon(w, with_db=False)
             when = canon.next_deadline(self.jump)
             if when is not None and when > CLOCK.now:
-                CLOCK.now = when
+                # just past the deadline (some timers test `now > timeout`)
+                CLOCK.now = when + 0.001
         elif kind == 'cmd':
             _, ckind, jobs, variant = ev
             jobs = tuple(tuple(j) for j in jobs)
